@@ -4,11 +4,10 @@ import (
 	"fmt"
 	"math/big"
 
-	sdk "github.com/cosmos/cosmos-sdk/types"
-	stakingtypes "github.com/cosmos/cosmos-sdk/x/staking/types"
 	"github.com/ethereum/go-ethereum/common"
 
-	fxstakingtypes "github.com/functionx/fx-core/v8/x/staking/types"
+	fxtypes "github.com/functionx/fx-core/v8/types"
+	crosschaintypes "github.com/functionx/fx-core/v8/x/crosschain/types"
 
 	"fxverif/lib"
 )
@@ -16,42 +15,36 @@ import (
 func main() {
 	c := lib.NewChain(1, 2, nil)
 	lib.Must(c.NextBlock())
+	x := c.X("eth")
+	x.SetupOracles([]int64{10000, 10000, 10000})
+	c.SetupFX([]string{"eth"})
 	user := lib.EthKey(1, "user", 0)
 	c.Mint(user.Acc(), lib.FX(1000))
-	A := common.HexToAddress("0xc0de0001")
-	B := common.HexToAddress("0xc0de0002")
-	c.Mint(A.Bytes(), lib.FX(100))
-	c.Mint(B.Bytes(), lib.FX(100))
-	val := c.ValKeys[0].Val()
-	// B delegates through the real msg server
-	c.EnsureAccount(c.Ctx, B.Bytes())
-	_, err := c.App.StakingKeeper.Keeper.Delegate(c.Ctx, B.Bytes(), lib.FX(10).Amount, stakingtypes.Unbonded, mustVal(c, val), true)
-	lib.Must(err)
 	lib.Must(c.NextBlock())
-	lib.Must(c.NextBlock())
-	data, err := fxstakingtypes.GetABI().Pack("delegationRewards", val.String(), B)
-	lib.Must(err)
-	// B: STATICCALL staking.delegationRewards, then REVERT
-	b := (&lib.Asm{}).Call(lib.STATICCALL, lib.StakingPrecompile, 0, nil, data).RequireSuccess().Revert()
-	c.InstallCode(c.Ctx, B, b.B)
-	a := (&lib.Asm{}).Call(lib.CALL, B, 0, nil, nil).Ignore().Stop()
-	c.InstallCode(c.Ctx, A, a.B)
-	for _, to := range []common.Address{A, B} {
-		ctx, _ := c.Ctx.CacheContext()
-		before := c.DumpAll(ctx)
-		res := c.EvmCall(ctx, user.Hex(), &to, nil, 3_000_000, nil)
-		fmt.Printf("call %s failed=%v err=%v vm=%s\n", to.Hex(), res.Failed, res.Err, res.VmError)
-		after := c.DumpAll(ctx)
-		for _, d := range lib.DiffDumps(before, after) {
-			fmt.Println("  ", d)
-		}
+	xabi := crosschaintypes.GetABI()
+	to := lib.CrosschainPrecompile
+	call := func(name string, value *big.Int, args ...interface{}) {
+		data, err := xabi.Pack(name, args...)
+		lib.Must(err)
+		res := c.EvmCall(c.Ctx, user.Hex(), &to, value, 3_000_000, data)
+		fmt.Printf("%s: failed=%v err=%v vm=%s ret=%x logs=%d gas=%d\n", name, res.Failed, res.Err, res.VmError, res.Ret, len(res.Logs), res.GasUsed)
 	}
+	call("crossChain", big.NewInt(1000), common.Address{}, lib.ExternalAccount(1, "eth", 1), big.NewInt(900), big.NewInt(100), fxtypes.MustStrToByte32("eth"), "")
+	for _, tx := range c.App.EthKeeper.GetUnbatchedTransactions(c.Ctx) {
+		fmt.Println("pool", tx.Id, tx.Sender, tx.Token.Amount, tx.Fee.Amount)
+	}
+	call("increaseBridgeFee", big.NewInt(50), "eth", big.NewInt(1), common.Address{}, big.NewInt(50))
+	for _, tx := range c.App.EthKeeper.GetUnbatchedTransactions(c.Ctx) {
+		fmt.Println("pool", tx.Id, tx.Sender, tx.Token.Amount, tx.Fee.Amount)
+	}
+	call("bridgeCall", big.NewInt(777), "eth", user.Hex(), []common.Address{}, []*big.Int{}, common.HexToAddress("0x1234"), []byte{1, 2}, big.NewInt(0), []byte{})
+	fmt.Println("bal", c.Bal(c.Ctx, user.Acc(), "FX"))
+	call("cancelSendToExternal", nil, "eth", big.NewInt(1))
+	fmt.Println("bal", c.Bal(c.Ctx, user.Acc(), "FX"))
+	call("executeClaim", nil, "eth", big.NewInt(5))
+	for _, m := range []string{"bridgeCoinAmount"} {
+		call(m, nil, common.Address{}, fxtypes.MustStrToByte32("eth"))
+	}
+	call("hasOracle", nil, "eth", common.HexToAddress("0x1234"))
+	call("isOracleOnline", nil, "eth", common.HexToAddress("0x1234"))
 }
-
-func mustVal(c *lib.Chain, v sdk.ValAddress) stakingtypes.Validator {
-	val, err := c.App.StakingKeeper.GetValidator(c.Ctx, v)
-	lib.Must(err)
-	return val
-}
-
-var _ = big.NewInt
